@@ -97,7 +97,7 @@ def tasks_single(prop, tier, seed):
     entries = corpus_T([tr]) + corpus_G(prop) + corpus_D(prop)
     from . import variants
 
-    entries = entries + variants.variant_corpus(entries, 10 if tier == "quick" else 40, 350 if tier == "quick" else 4000, salt=prop)
+    entries = entries + variants.variant_corpus(entries, 16 if tier == "quick" else 60, 700 if tier == "quick" else 6000, salt=prop)
     if tier == "thorough":
         entries += [e for e in corpus_T() if e["trait"] not in (tr, "ast", "global")]
     for e in entries:
@@ -123,7 +123,7 @@ def tasks_C05(tier, seed):
     entries = corpus_T(["none"]) + corpus_G("C05") + corpus_D("C05")
     from . import variants
 
-    entries = entries + variants.variant_corpus(entries, 8 if tier == "quick" else 40, 150 if tier == "quick" else 2000, salt="C05")
+    entries = entries + variants.variant_corpus(entries, 10 if tier == "quick" else 60, 300 if tier == "quick" else 3000, salt="C05")
     entries += [e for e in corpus_T() if e["trait"] not in ("none", "global")] if tier == "thorough" else [e for e in corpus_T(["regression", "ast", "dependency", "math", "minmax_chains", "inline"])]
     for e in entries:
         tasks.append(base_task(dict(e, out=[]), "none", "voc", tier, one_to_one=True, open_all=True))
@@ -276,7 +276,7 @@ def finish_e1(prop, tier, seed, tasks, results, known, t0, extra_cov=None, extra
         if r["status"] == "violation":
             hit = None
             for e in known:
-                if kf.match_input(e, r.get("source", t["text"]), t["enabled"], r.get("result", "")):
+                if kf.match_input(e, r.get("source", t["text"]), t["enabled"], r.get("result", "")) or kf.match_program(e, r.get("source", t["text"]), t["enabled"]):
                     hit = e
                     break
             if hit is not None:
